@@ -146,6 +146,9 @@ impl Check for C16 {
         events.sort_by_key(|e| e.0);
         let srcs = if r.chance(1, 4) {
             vec![SrcSpec { text: ".orig x3000\nLEA R0, S\nPUTS\nGETC\nOUT\nIN\nLEA R0, S\nPUTSP\nHALT\nS .stringz \"hi\"\n.blkw 3\n.end\n".into(), debug: r.bool() }]
+        } else if r.chance(1, 8) {
+            // an object file without a single word: loading it leaves the simulator with no loaded block at all
+            vec![SrcSpec { text: ".orig x3000\n.end\n".into(), debug: r.bool() }]
         } else {
             vec![]
         };
@@ -192,7 +195,15 @@ impl Check for C16 {
                     }
                     Op::CallSub(a)
                 }
-                26 if r.chance(1, 2) => Op::RemoveDev(r.below(4) as usize),
+                26 if r.chance(1, 2) => {
+                    if r.bool() {
+                        // a NullDevice as the newest slot, reachable through its own port
+                        let p = *r.pick(&[0xFE60u16, 0xFE61, 0xFE7F, 0xFFF0]);
+                        ops.push(Op::AddNullDev(vec![p]));
+                        ops.push(Op::SetReg(r.below(6) as u8, p));
+                    }
+                    Op::RemoveDev(r.below(4) as usize)
+                }
                 _ => Op::QueryAll,
             };
             ops.push(op);
@@ -335,6 +346,7 @@ pub fn op_name(op: &Op) -> &'static str {
         Op::SubDef(..) => "set_subroutine_def",
         Op::Host(_) => "host",
         Op::RemoveDev(_) => "remove_device",
+        Op::AddNullDev(_) => "add_device(NullDevice)",
         _ => "cfg",
     }
 }
